@@ -914,12 +914,15 @@ class CylcWorkflowDAO:
             WHERE
                 name==? AND cycle==?
         '''  # nosec B608 (table name is code constant)
-        return {
-            outputs: deserialise_set(flow_nums)
-            for flow_nums, outputs in self.connect().execute(
-                stmt, (name, point,)
+        ret: 'Dict[str, FlowNums]' = {}
+        for flow_nums, outputs in self.connect().execute(
+            stmt, (name, point,)
+        ):
+            # (rows of different flows can hold identical outputs)
+            ret.setdefault(outputs, set()).update(
+                deserialise_set(flow_nums)
             )
-        }
+        return ret
 
     def select_xtriggers_for_restart(self, callback):
         stmt = rf'''
